@@ -124,9 +124,10 @@ class XMLReader(object):
                 tableClass = ttLib.getTableClass(tag)
                 if tableClass is None:
                     tableClass = DefaultTable
-            if tag == "loca" and tag in self.ttFont:
+            if tag in ("loca", "Gloc") and tag in self.ttFont:
                 # Special-case the 'loca' table as we need the
-                #    original if the 'glyf' table isn't recompiled.
+                #    original if the 'glyf' table isn't recompiled
+                #    (and likewise 'Gloc', which 'Glat' recalculates).
                 self.currentTable = self.ttFont[tag]
             else:
                 self.currentTable = tableClass(tag)
